@@ -24,6 +24,7 @@ def run(ctx, replay=None):
               dict(shape="chain", max_env=2, flagsets="DefaultAndMissing", env="ProfileEnv"),    # + the profile file deleted / put back
               dict(shape="chain", max_env=2, flagsets="DefaultAndMissing", env="SwitchEnv"),     # + an entity starts / stops using the profile
               dict(shape="deep", max_env=1, flagsets="DefaultAndMissing"),                        # four tiers: r -> s -> m -> l
+              dict(shape="inherit", max_env=1, flagsets="DefaultAndMissing", env="SwitchEnv"),    # `s` inherits the profile's validity; a profile edit that changes only that
               # histories of any length in the design model (every user action, every flag set, every fault): random behaviours
               dict(shape="chain", max_env=0, flagsets="AllFlagSets", env="EverythingEnv", simulate="num=150,depth=80")]
         ex = [dict(shape="chain", max_env=2, flags="m,c,o", extra="a", faults=False),
@@ -34,7 +35,8 @@ def run(ctx, replay=None):
               dict(shape="chain", max_env=3, flags="m,c", faults=False, env="Edit,RemoveConfig,AddConfig"),
               dict(shape="chain", max_env=3, flags="m,c", faults=False, env=PROFILE),
               dict(shape="chain", max_env=2, flags="m,c", faults=False, env=SWITCH),
-              dict(shape="deep", max_env=1, flags="m,c,o", faults=False)]     # a reason at the root must reach the great-grandchild in ONE run
+              dict(shape="deep", max_env=1, flags="m,c,o", faults=False),     # a reason at the root must reach the great-grandchild in ONE run
+              dict(shape="inherit", max_env=2, flags="m,c", faults=False, env="EditProfile,Edit,SetProfile")]   # profile edits that change only the inherited validity
     else:
         # measured (16 cores, loaded): 21.3 M distinct states in 90 min for eleven bounded configurations; the plan below keeps one
         # configuration per alphabet and shape family (~40 min); the two-roots shape is model-checked by C10 / C14
@@ -46,6 +48,8 @@ def run(ctx, replay=None):
               dict(shape="chain", max_env=3, env="ProfileEnv", flagsets="NoAllFlagSets"),
               dict(shape="star", max_env=3, env="SwitchEnv", flagsets="DefaultAndMissing"),
               dict(shape="deep", max_env=2),
+              dict(shape="inherit", max_env=2, flagsets="DefaultAndMissing", env="SwitchEnv"),
+              dict(shape="inherit", max_env=2, flagsets="ExpiryFlagSets", env="WideEnv"),
               dict(shape="deep", max_env=2, flagsets="DefaultAndMissing", env="IssuerEnv", alt="DeepAlt"),
               dict(shape="deep", max_env=0, flagsets="AllFlagSets", env="EverythingEnv", alt="DeepAlt", simulate="num=2000,depth=100"),
               dict(shape="chain", max_env=0, flagsets="AllFlagSets", env="EverythingEnv", simulate="num=4000,depth=100"),
@@ -71,5 +75,7 @@ def run(ctx, replay=None):
               dict(shape="deep", max_env=2, flags="m,c,o", extra="a", faults=False),
               dict(shape="deep", max_env=2, flags="m,c", faults=True, env="Edit,DeleteArt,StripKey,SetIssuer,EditProfile"),
               dict(shape="deep", max_env=0, flags="m,c,o,e", extra="a", faults=True, random_walks=30000, walk_len=14, env=FULL),
+              dict(shape="inherit", max_env=3, flags="m,c", extra="c,m,o", faults=False, env="EditProfile,Edit,DeleteArt,SetProfile"),
+              dict(shape="inherit", max_env=0, flags="m,c,o,e", extra="a", faults=True, random_walks=20000, walk_len=14, env=FULL),
               dict(shape="chain", max_env=2, flags="m", extra="c,m;c,m,o", faults=False, native=True, env=WIDE)]
     return repo.run_lifecycle(ctx, "C12", mc, ex, "model_checking", ASSUME, replay)
